@@ -282,6 +282,18 @@ def edge_pool(name, **opts):
                     if o[0] == 'ok' and isinstance(o[1], str) and o[1] not in seen:
                         seen.add(o[1])
                         out.append(o[1])
+        # a character of the other class at every position (alphanumeric positions that the corpus only shows with digits,
+        # or only with letters)
+        for pos in range(len(v)):
+            c0 = v[pos]
+            alts = 'AKZ' if c0.isdigit() else '059' if c0.isalpha() and c0.isascii() else ''
+            for c in alts:
+                w = synth(name, v[:pos] + c + v[pos + 1:], [], opts)
+                if w and w[pos] == c:
+                    o = core.out(m.validate, w, **opts)
+                    if o[0] == 'ok' and isinstance(o[1], str) and o[1] not in seen:
+                        seen.add(o[1])
+                        out.append(o[1])
         # every two-digit prefix (bank / region / type code tables keyed on the first two digits)
         if len(v) >= 4 and v[0].isdigit() and v[1].isdigit() and len(lengths) <= 4:
             for a in string.digits:
